@@ -93,6 +93,26 @@ def check_one(part, A, T, tname, reflect, npat, case):
     Ar = reorient_points(A, B)
     if np.abs(Ar - A @ R).max() > 1e-10:
         part.fail("reorient_points:" + key, "reorient_points differs from A @ R", case)
+    # the same two point sets handed over as views into ONE buffer (columns of a table, interleaved rows, a window of a longer
+    # array), and as float32 / Fortran-ordered copies: the answer is a function of the coordinates, not of where they live
+    n = len(A)
+    table = np.empty((n, 6))
+    table[:, :3], table[:, 3:] = A, B
+    inter = np.empty((2 * n, 3))
+    inter[0::2], inter[1::2] = A, B
+    chain = np.vstack([A, B])
+    for lname, Av, Bv in (("table-columns", table[:, :3], table[:, 3:]), ("interleaved-rows", inter[0::2], inter[1::2]), ("windows-of-one-array", chain[:n], chain[n:]),
+                          ("fortran-order", np.asfortranarray(A), np.asfortranarray(B))):
+        part.tr()
+        try:
+            Rv = np.asarray(kabsch_rotation_matrix(Av, Bv), dtype=float)
+            rv = float(rmsd_points(Av, Bv))
+        except Exception as e:
+            part.fail("layout-raise:%s" % lname, "kabsch_rotation_matrix on views (%s) raised %r" % (lname, e), case)
+            continue
+        if Rv.shape != R.shape or np.abs(Rv - R).max() > 1e-9 or abs(rv - r2) > 1e-9:
+            part.fail("layout-dependence:%s" % lname, "the same point sets given as %s of one buffer give another rotation (max dev %.3g) / rmsd (%.3g vs %.3g)"
+                      % (lname, float(np.abs(Rv - R).max()) if Rv.shape == R.shape else np.inf, rv, r2), case)
     if reflect:
         imp = horn.improper_optimum(A, B)
         if ref > 1e-6 and got < ref - 1e-6:
